@@ -386,6 +386,10 @@ def worker_defexpand(rec, shard, nshards, seed):
         if takes:
             other = subst(content, "zz9" if key == "vt" else "4")
             cases.append(("reject", f"(Def-expand/{name}, ({render_tree(other)}))"))
+            # the content with its '#' still in it is not the expansion for value v (judged where placeholders are allowed,
+            # i.e. the way sidecar entries are validated, so that the '#' itself is no error)
+            cases.append(("reject-ph", f"(Def-expand/{name}, ({render_tree(content)}))"))
+            cases.append(("reject-ph", f"(Circle, (Def-expand/{name}, ({render_tree(content)})))"))
     for ci in core.shard_order(len(cases), shard, nshards, seed):
         want, text = cases[ci]
         rec.n("evaluations")
@@ -393,9 +397,16 @@ def worker_defexpand(rec, shard, nshards, seed):
         rec.n("distinct_nontrivial")
         try:
             hs = env.HedString(text, env.schema, env.dd)
-            codes = [i["code"] for i in env.validator.validate(hs, allow_placeholders=False) if i["severity"] == ERR]
+            codes = [i["code"] for i in env.validator.validate(hs, allow_placeholders=(want == "reject-ph"))
+                     if i["severity"] == ERR]
         except Exception as e:
             rec.violation("C09:def-expand:raises:" + type(e).__name__, text=text, error=repr(e)[:200])
+            continue
+        if want == "reject-ph":
+            rec.state(("dx", text))
+            rec.outcome(f"def-expand:{want}:{'DEF_EXPAND_INVALID' in codes}")
+            if "DEF_EXPAND_INVALID" not in codes:
+                rec.violation("C09:def-expand:unfilled-placeholder-content-accepted", text=text, codes=codes)
             continue
         rec.state(("dx", text))
         rec.outcome(f"def-expand:{want}:{'DEF_EXPAND_INVALID' in codes}")
